@@ -62,6 +62,8 @@ inductive Op (α σ : Type) where
   | pop0                                      -- r.pop()
   | popInt (i : Int) (d : Option α)           -- r.pop(i[, d])
   | popName (n : String) (d : Option α)       -- r.pop(n[, d]) / r.pop(n, default=d)
+  | popBadKw                                  -- r.pop(..., foo=1): unexpected keyword
+  | setSliceScalar (sl : Slice)               -- r[a:b:c] = <not iterable>
   | insert (i : Int) (v : α)                  -- r.insert(i, v)
   | append (v : α)                            -- r.append(v)
   | extendList (vs : List α)                  -- r.extend(vs)        vs a plain iterable
@@ -220,6 +222,11 @@ def step (s : PR α) : Op α (PR α) → PR α × Out α
     else match d with
       | some v => (s, .val v)
       | none => (s, .none)
+  | .popBadKw => (s, .err .type)       -- 335-339: TypeError before anything is touched
+  | .setSliceScalar sl =>              -- 229: list raises ValueError for step 0, else TypeError (not iterable)
+    match sl.indices s.toks.length with
+    | none => (s, .err .value)
+    | some _ => (s, .err .type)
   | .insert i v =>                     -- 389-395
     ({ s with toks := insertAt s.toks i v, dict := fixIns i s.dict }, .none)
   | .append v => ({ s with toks := s.toks ++ [v] }, .none)            -- 412
